@@ -9,6 +9,23 @@ sys.path.insert(0, VERIF)
 from harness.core import CHECKS  # noqa
 
 TABLE = {
+    "C04": dict(
+        category="exploration", design_ref="3/C04",
+        technique="Hypothesis-generated encryption plans, round-trip oracle (plaintext octets and header positions), must-refuse oracle for forbidden combinations",
+        text="~6000 generated encrypt/decrypt round trips per quick run over 21 alg x 8 enc x zip x 6 curves x 3 serializations x 1-4 mixed recipients x AAD x apu/apv x "
+             "alg placement x key hand-over (attached, key set, callable) x key import form; every recipient also decrypts alone under any-recipient validation; ~900 generated "
+             "forbidden combinations (direct mode among several recipients, ECDH-1PU+KW with GCM/ChaCha) must be refused at encryption time. Exploration, sampled space.",
+        note="keys derived with `cryptography`; any-recipient decryption by an RSA key holder next to a foreign RSA1_5 recipient is DONT_CARE (implicit rejection yields a second CEK)",
+    ),
+    "C08": dict(
+        category="exploration", design_ref="3/C08",
+        technique="differential testing in both directions against an independent RFC 7516/7518 + ECDH-1PU + ChaCha implementation (/verif/ref), generated header spellings, structural checks of produced tokens",
+        text="joserfc-produced JWEs must decrypt under a strict independent decryptor (own RFC 3394 key wrap, Concat KDF, PBES2, CBC-HMAC, GCM key wrap, raw DEFLATE, pure-Python "
+             "ECDH/X25519/X448) and satisfy structural rules (IV/tag/encrypted-key sizes, complete raw DEFLATE, epk members, p2s/p2c); reference-produced JWEs with generated "
+             "CEK/IV/epk/salts, DEFLATE levels 0-9 and arbitrary protected-header spellings must decrypt in joserfc. Makes symmetric KDF/AAD/AL/key-split/padding errors visible that "
+             "round trips cannot see. Exploration over generated cases plus the published RFC 7520 and ECDH-1PU vectors.",
+        note="trusts /verif/ref/jwe.py (self-tested on RFC 3394, RFC 7518 app. C, RFC 7520 s.5, ECDH-1PU draft vectors, HChaCha20 draft vector) and pycryptodome/hashlib primitives",
+    ),
     "C01": dict(
         category="fault_enumeration", design_ref="3/C01",
         technique="exhaustive single-fault enumeration per Hypothesis-generated token (every bit of every decoded segment, every truncation, splices, structural JSON edits, key substitution, alg=none) judged by a differential oracle (independent reference verifier)",
